@@ -81,7 +81,15 @@ fn static_part(ctx: &Ctx, per_shard: usize) -> Acc {
         for k in 0..per_shard {
             let mut rng = Rng::derive(ctx.seed, 2_500 + shard as u64, k as u64);
             let prof = if rng.chance(0.7) { Profile::wild_static() } else { Profile::conforming() };
-            let c = make_case(&mut rng, &prof, None, Some(&Style::plain()));
+            let mut c = make_case(&mut rng, &prof, None, Some(&Style::plain()));
+            if k % 5 == 4 {
+                let s = if rng.chance(0.7) { crate::shapes::trap_handler_family(&mut rng) } else { crate::shapes::shared_tail_family(&mut rng) };
+                acc.note("shapes", s.name);
+                c.g.prog = s.prog;
+                c.g.base = c.g.prog.clone();
+                c.g.funcs.clear();
+                c.printed = crate::print::print(&c.g.prog, &Style::plain(), &mut Rng::new(1));
+            }
             acc.evaluations += 1;
             let Ok(a) = analyze(&c.printed.text) else {
                 acc.count("analysis_panicked", 1);
@@ -89,6 +97,44 @@ fn static_part(ctx: &Ctx, per_shard: usize) -> Acc {
             };
             let Ok(cfg) = &a.cfg else { continue };
             let gv = GraphView::of(cfg);
+            // ---- (c) the per-instruction constants themselves: what an instruction reads (gen) and
+            // overwrites (kill), from the harness's own decoding of it
+            for (nd, rc) in gv.nodes.iter().zip(cfg.nodes().iter()) {
+                let pn = rc.node();
+                if nd.render.trim() == "uret" {
+                    // the interrupted code goes on using every register
+                    acc.count("gen_kill_nodes_checked", 1);
+                    if nd.gen | 1 != 0xffff_ffff {
+                        acc.violation(
+                            "C02|gen|uret".to_string(),
+                            format!("`uret` (line {}) is said to read only [{}]: the interrupted code reads every register", nd.line + 1, regs(nd.gen)),
+                            json!({"program": c.printed.text}),
+                        );
+                    }
+                    continue;
+                }
+                if nd.is_return || nd.is_ecall || nd.calls_to.is_some() || nd.is_func_entry || nd.is_program_entry {
+                    continue; // their sets are the convention's, judged by parts (a) and (b)
+                }
+                let Some(ins) = crate::decode::node_to_ins(&pn) else { continue };
+                acc.count("gen_kill_nodes_checked", 1);
+                let want_gen: u32 = ins.reads().iter().filter(|r| **r != 0).fold(0, |m, r| m | 1 << r);
+                let want_kill: u32 = ins.writes().filter(|r| *r != 0).map_or(0, |r| 1 << r);
+                if nd.gen & !1 != want_gen {
+                    acc.violation(
+                        format!("C02|gen|{}", nd.kind),
+                        format!("`{}` (line {}) reads [{}], the analysis uses [{}]", nd.render, nd.line + 1, regs(want_gen), regs(nd.gen & !1)),
+                        json!({"program": c.printed.text}),
+                    );
+                }
+                if nd.kill & !1 != want_kill {
+                    acc.violation(
+                        format!("C02|kill|{}", nd.kind),
+                        format!("`{}` (line {}) overwrites [{}], the analysis uses [{}]", nd.render, nd.line + 1, regs(want_kill), regs(nd.kill & !1)),
+                        json!({"program": c.printed.text}),
+                    );
+                }
+            }
             let (ri, ro) = reference_liveness(&gv);
             acc.count("lfp_programs", 1);
             acc.count("lfp_nodes_compared", gv.nodes.len() as u64);
@@ -118,11 +164,12 @@ pub fn run(ctx: &Ctx) -> i32 {
         "(a) dynamic: the same program executions as C01; for every register read, every executed node between the dynamic \
          definition (instruction, activation entry, clobbering return of a call/ecall) and the read must list the register as live; \
          argument/return registers inferred for the functions must contain what activations actually read; `Unused value` must not sit on a value an execution read. \
-         (b) static: live_in/live_out of every node compared with the least solution of the documented equations computed by an independent worklist solver. \
+         (b) static: live_in/live_out of every node compared with the least solution of the documented equations computed by an independent worklist solver \
+         (generated programs, trap handlers, shared tails); (c) the per-instruction constants of those equations - the registers an instruction reads and overwrites - compared with the harness's own decoding of every ordinary instruction, and `uret` must read every register. \
          distinct_nontrivial = distinct programs with >= 10 executed instructions and >= 1 checked chain",
     );
     rep.assume("calls are transparent for argument registers and clobber every other caller-saved register not written by the callee; ecalls read a7 plus the RARS arguments and clobber all caller-saved registers");
-    rep.assume("part (b) takes the analyzer's per-node gen/kill sets and ecall table as the documented constants");
+    rep.assume("part (b) takes the analyzer's per-node gen/kill sets and ecall table as the documented constants; part (c) checks those of ordinary instructions and of uret independently");
     let per_shard = ctx.tier.pick(120, 2500);
     let runs = ctx.tier.pick(4, 8);
     let acc = workload(ctx, Which::C02, 2_000, per_shard, runs);
